@@ -25,4 +25,4 @@ Extraction "samodel.ml"
   mm_create mm_load dir_count
   prog_tf prog_phrase prog_df prog_score prog_select spawn run_sched serial_schedule results
   element_of fill_element rebuild
-  slop_freqs slop_spec.
+  slop_freqs slop_spec intersect_all span_search.
